@@ -990,6 +990,9 @@ def _sim_setup(r, max_points=10):
     except M.SweepError:
         raise Reject("contract-rejected sweep definition")
     _reject_const_in_cop(r["c"])
+    for t in CG.circuit_trees(r["c"]):  # constant slots must be real and finite even when the sweep has no point to evaluate them
+        if not M.names_of(t):
+            M.ev(t, None)
     sweep = M.build_sweep(r["sweep"], "str")
     if len(points) > max_points:
         points, sweep = points[:max_points], sweep[:max_points]
@@ -1125,6 +1128,10 @@ def _has_cop_sym(r):
 
 @_domain
 def oracle_flatten(r):
+    if any(isinstance(M.to_sympy(t), sympy.Number) for t in CG.circuit_trees(r["c"])):
+        # b - b collapses to sympy.Integer(0) at construction: flatten documents "if the parameter is a number, don't change it",
+        # and a resolver without entries leaves it alone, so the gate keeps a sympy constant (documented caveat, not a symbol)
+        raise Reject("slot is a bare sympy number")
     points, sweep, c_sym, nums, qs = _sim_setup(r, max_points=6)
     tables = _points_to_tables(points)
     labels = _circuit_labels(r, len(points))
@@ -1275,8 +1282,8 @@ def oracle_circuit_resolve(r):
     same = cirq.resolve_parameters(c_sym, {ZZ: 0.25})
     if set(cirq.parameter_names(same)) != exp or len(same) != len(c_sym):
         raise Violation("resolving an unrelated symbol changed the circuit's parameters or moments")
-    if not exp and not (same == c_sym):
-        raise Violation("resolving an unparameterised circuit changed it")
+    if not any(o.get("slots") for o in r["c"]["ops"] if "m" not in o) and not (same == c_sym):
+        raise Violation("resolving a circuit without any sympy object changed it")
     # two stages: numeric subset first, the whole table second
     sub = [n for n in r["sub"] if M.value_to_python(r["vals"].get(n, ["expr"])) is not None]
     if sub and len(sub) < len(CG.SYMS):
@@ -1423,23 +1430,18 @@ def _is_pfsim_names(sub, r):
 
 
 KNOWN_FEATURES = {
-    # ParamResolver.value_of: Pow fast path calls np.float_power(number, sympy expression) -> TypeError
-    "FC10a_pow_fast_path_sympy_operand": lambda sub, r: (sub == "expr_compose" and _compose_pow_partial(r)) or (
-        sub in ("gate_unitary", "gate_names", "cop_protocol") and _gate_pow_partial(r)) or _circuit_pow(sub, r),
-    # PhasedFSimGate has _is_parameterized_ but no _parameter_names_: names are empty, CircuitOperation never resolves it
-    "FC10b_phasedfsim_parameter_names": lambda sub, r: _circuit_pfsim(sub, r) or (_rc(r) is None and "case" in r and _is_pfsim_names(sub, r)),
+    # repr(ZipLongest) prints "cirq_google.ZipLongest(...)" (recorded as known: upstream's own test pins the string)
+    "F10_ziplongest_repr": lambda sub, r: sub == "sweep_repr" and M.sweep_has(r["t"], {"ziplongest"}),
     # value_of returns a *sympy* number when arithmetic collapses (0.0*c + 1.0 -> sympy.Float(1.0)); a gate holding it is
     # "parameterized" without names, which a CircuitOperation can never resolve -> two-stage resolution has no unitary
     "FC10d_collapse_leaves_sympy_number_in_circuitop": lambda sub, r: _circuit_collapse(sub, r) or ("case" in r and _collapse_in_cop(sub, r)),
-    # repr(ZipLongest) prints "cirq_google.ZipLongest(...)"
-    "F10_ziplongest_repr": lambda sub, r: sub == "sweep_repr" and M.sweep_has(r["t"], {"ziplongest"}),
-    # Sweep.__add__ treats a ZipLongest operand as a Zip (isinstance check) and unpacks it: ZipLongest(a, b) + c == Zip(a, b, c)
-    "FC10e_add_unpacks_ziplongest": lambda sub, r: _zl_under_add(r.get("t") or r.get("sweep") or ["unit"]),
-    # flatten()/_ParamFlattener never reaches inside a CircuitOperation (with_params only consults resolver.param_dict)
-    "FC10f_flatten_skips_circuit_operation": lambda sub, r: sub == "flatten" and _has_cop_sym(r),
-    # CircuitOperation._unitary_ (single-qubit fast path) multiplies the matrices of self.circuit, ignoring param_resolver
-    "FC10c_circuitop_unitary_ignores_param_resolver": lambda sub, r: sub == "cop_protocol" and _cop_qubits(r) <= 1,
 }
+
+# Repaired by fix: commits (predicates removed, inputs generated again; regression recipes are in known_findings.json):
+#   FC10a value_of Pow fast path + sympy operand (b596891), FC10b PhasedFSimGate._parameter_names_ (789c48a),
+#   FC10c 1-qubit CircuitOperation unitary ignored param_resolver (a82c794), FC10e Sweep.__add__ unpacked ZipLongest (c8b2a6d),
+#   FC10f flatten skipped CircuitOperation (184e225), FC10g eject_z on symbolic iSWAP/FSim (e6ad139),
+#   PauliInteractionGate JSON exponent (d16af11, found with C11).
 
 _UNITARY_WRAPS = [w for w in WRAPS]
 
